@@ -63,7 +63,7 @@ def init_assignments(src, fn, n):
     return vals
 
 
-@extractor
+@extractor(soft=True)
 def sha256_consts(repo):
     src = read(repo, "alg/sha256.c")
     K = c_ints(c_array(src, "Krnd"))
@@ -114,7 +114,7 @@ def rnd_lines(src, fn, pat):
     return re.findall(pat, body)
 
 
-@extractor
+@extractor(soft=True)
 def sha1_consts(repo):
     src = read(repo, "alg/sha1.c")
     iv = init_assignments(src, "SHA1_Init", 5)
@@ -157,7 +157,7 @@ def sha1_consts(repo):
     return "Sha1Consts", t, []
 
 
-@extractor
+@extractor(soft=True)
 def md5_consts(repo):
     src = read(repo, "alg/md5.c")
     iv = init_assignments(src, "MD5_Init", 4)
@@ -202,7 +202,7 @@ def md5_consts(repo):
     return "Md5Consts", t, []
 
 
-@extractor
+@extractor(soft=True)
 def crc32c_consts(repo):
     src = read(repo, "alg/crc32c.c")
     t080 = int(c_define(src, "T_0_0x80"), 16)
